@@ -58,7 +58,19 @@ def gen_lineage(r):
     # a replacement for the root's name (name re-use), different rules
     s9, g9 = spec.gen_root(r, True, n_rules=r.randint(2, 4), hook_p=0.0, class_start=False, max_rep_lo=1)
     alt = C.ModInfo(9, nm(0), None, s9, g9)
-    return infos, alt, dotted
+    # siblings: a second (third) derived grammar of a module that already has one -- what one child
+    # overrides, adds or declares as ignorable must not reach its parent, its siblings or their children
+    sibs = []
+    r2 = rngm.stream(r.getrandbits(48), 'siblings')
+    if r2.random() < 0.45:
+        for k in range(min(2, len(infos))):
+            if r2.random() < (0.8 if k == 0 else 0.5):
+                par = infos[k]
+                force = ('X',) if matrix and r2.random() < 0.5 else ()
+                s, g = spec.gen_child(r2, par.gen, hook_p=0.0, ignore=r2.choice([None, None, 'anon', 'named']), force=force,
+                                      override_ignore_p=0.25, respell_start_p=0.2)
+                sibs.append(C.ModInfo(5 + k, nm(5 + k), par.id, s, g, parent=par))
+    return infos, alt, dotted, sibs
 
 
 def _acceptor(m):
@@ -101,12 +113,26 @@ def gen_plan(seed, useed, index, verif_seed):
     fr = rngm.stream(seed, 'faults')
     ur2 = rngm.stream(seed, 'variant')
     tr2 = rngm.stream(seed, 'variant-texts')
-    infos, alt, dotted = gen_lineage(ur)
+    infos, alt, dotted, sibs = gen_lineage(ur)
     for m in infos + [alt]:
         m.texts = C.make_texts(tr, m, n=3, accept=_acceptor(m))
-    mods = {m.id: module_entry(m) for m in infos + [alt]}
-    texts = {m.id: m.texts for m in infos + [alt]}
-    byid = {m.id: m for m in infos + [alt]}
+    tr3 = rngm.stream(useed, 'sibling-texts')
+    for m in sibs:
+        m.texts = C.make_texts(tr3, m, n=3, accept=_acceptor(m))
+    mods = {m.id: module_entry(m) for m in infos + [alt] + sibs}
+    texts = {m.id: m.texts for m in infos + [alt] + sibs}
+    byid = {m.id: m for m in infos + [alt] + sibs}
+    pending_sibs = list(sibs)
+    sr = rngm.stream(seed, 'siblings')
+
+    def maybe_siblings(level, force=False):
+        """Define siblings whose parent is live (levels 0..level), each at a point of the history chosen per run."""
+        for sb in list(pending_sibs):
+            if sb.extends <= level and (force or sr.random() < 0.5):
+                pending_sibs.remove(sb)
+                ops.append({'op': 'define', 'mod': sb.id, 'sibling': True})
+                live.append(sb.id)
+                parses(sr.choice([0, 1, 2]))
     ops = []
     live = []
 
@@ -149,6 +175,7 @@ def gen_plan(seed, useed, index, verif_seed):
             bad = 'grammar %sbad%d extends %s\n\nQ = "q"\n```\nraise RuntimeError("ctor_fail")\n```\n' % (U.PREFIX, i, m.name)
             ops.append({'op': 'define_fail', 'desc': bad})
         parses(wr.choice([0, 1, 2, 3]))
+        maybe_siblings(i)
         if reuse_at == i + 1:
             ops.append({'op': 'define', 'mod': alt.id, 'reuse': True})
             live.append(alt.id)
@@ -165,6 +192,8 @@ def gen_plan(seed, useed, index, verif_seed):
             # a chain with a forgotten member can no longer be extended by name
             stopped = True
             break
+    if not stopped:
+        maybe_siblings(len(infos), force=True)
     if 'recreate' in kinds and not stopped and len(infos) >= 2:
         # "edit the base, re-run everything": a module that is already extended is re-created under
         # its name with edited rules, then every deeper level is re-created from its unchanged text
@@ -359,6 +388,8 @@ def execute(plan, schedule=None, refs=None):
                         viol.append({'check': 'registry', 'op_index': opi, 'op': op, 'shape': shape_of(me)})
                     continue
                 env.count('define')
+                if op.get('sibling'):
+                    env.count('sibling_defined')
                 if op.get('recreate'):
                     env.count('recreate')
                 elif op.get('reuse'):
@@ -408,6 +439,8 @@ def execute(plan, schedule=None, refs=None):
                     env.count('ambiguous_readings_skipped')
                 else:
                     env.count('parses_judged')
+                    if int(mid) in (5, 6):
+                        env.count('judged_through_sibling')
                     _count_probes(env, me, got)
                     if got != want:
                         viol.append({'check': 'model', 'sub': 'parse', 'op_index': opi, 'op': op, 'mod': mid,
@@ -470,8 +503,8 @@ def _count_probes(env, me, got):
 def prepare(verif_seed, index):
     """Warm the universe-level caches (flattened models) in the group process."""
     useed = rngm.derive('universe', verif_seed, PROP, index // RUNS_PER_UNIVERSE)
-    infos, alt, dotted = gen_lineage(rngm.stream(useed, 'universe'))
-    for m in infos + [alt]:
+    infos, alt, dotted, sibs = gen_lineage(rngm.stream(useed, 'universe'))
+    for m in infos + [alt] + sibs:
         levels = [{'items': a.spec['items']} for a in _levels(m)]
         for rd in (['late', 'early'] if F.readings_differ(levels, len(levels) - 1) else ['late']):
             model_module(levels, len(levels) - 1, rd)
@@ -629,7 +662,8 @@ def coverage(agg):
         'faults_fired_by_kind': {k: c.get(k, 0) for k in ('name_reuse', 'ctor_fail', 'forget', 'recreate')},
         'probes': {k: c.get(k, 0) for k in (
             'judged_through_derived_module', 'judged_through_grandchild', 'inherited_rule_reaches_overridden_rule',
-            'chain_has_super_reference', 'inherited_ignore_pattern', 'judged_successful_parse', 'define', 'define_failed')},
+            'chain_has_super_reference', 'inherited_ignore_pattern', 'judged_successful_parse', 'define', 'define_failed',
+            'sibling_defined', 'judged_through_sibling')},
         'chain_length': agg['levels'],
         'histories_with_dotted_names': agg['dotted'],
         'fault_free_baseline_histories': agg['baseline_runs'],
